@@ -39,6 +39,7 @@ type c14pcfg struct {
 	workers string // "1" | "2+dedicated"
 	budget  int
 	ctor    string // constructor failure case ("" = Close exploration)
+	silent  bool   // after Close the network never answers: a call in flight only returns when its context ends
 }
 
 func c14pConfigs(tier string) []vmc.Cfg {
@@ -49,6 +50,7 @@ func c14pConfigs(tier string) []vmc.Cfg {
 	var out []vmc.Cfg
 	for _, wk := range []string{"1", "2+dedicated"} {
 		out = append(out, vmc.Cfg{Name: fmt.Sprintf("provider-close/workers-%s/preemptions<=%d", wk, b), Budget: b, Data: c14pcfg{workers: wk, budget: b}})
+		out = append(out, vmc.Cfg{Name: fmt.Sprintf("provider-close/workers-%s/network-silent-after-close/preemptions<=%d", wk, b), Budget: b, Data: c14pcfg{workers: wk, budget: b, silent: true}})
 	}
 	for _, f := range []string{"online-interval-0", "online-interval-0+own-keystore", "negative-offline-delay", "no-router", "no-sender", "dedicated>max", "nil-keystore-option"} {
 		out = append(out, vmc.Cfg{Name: "provider-ctor/" + f, Data: c14pcfg{ctor: f}})
@@ -65,6 +67,18 @@ type c14penv struct {
 	mu    gosync.Mutex
 	swarm []peer.ID
 	calls int
+	// deadAfterClose: once closing is set, a call that is released does not return before its context ends
+	deadAfterClose bool
+	closing        bool
+}
+
+func (e *c14penv) afterPoint(ctx context.Context) {
+	e.mu.Lock()
+	dead := e.deadAfterClose && e.closing
+	e.mu.Unlock()
+	if dead {
+		<-ctx.Done()
+	}
 }
 
 func (e *c14penv) GetClosestPeers(ctx context.Context, key string) ([]peer.ID, error) {
@@ -72,6 +86,7 @@ func (e *c14penv) GetClosestPeers(ctx context.Context, key string) ([]peer.ID, e
 	e.calls++
 	e.mu.Unlock()
 	e.s.Point("closest " + kid.BitsOf([]byte(key), 3))
+	e.afterPoint(ctx)
 	if ctx.Err() != nil {
 		return nil, ctx.Err()
 	}
@@ -91,6 +106,7 @@ func (e *c14penv) SendMessage(ctx context.Context, p peer.ID, m *pb.Message) err
 	e.calls++
 	e.mu.Unlock()
 	e.s.Point("send " + kid.BitsOf([]byte(p), 3))
+	e.afterPoint(ctx)
 	return ctx.Err()
 }
 
@@ -224,6 +240,9 @@ func c14pRun(x *vmc.X, cfg vmc.Cfg) {
 	parkedAtClose := s.Parked()
 	hist = append(hist, "close")
 	closeStarted = true
+	e.mu.Lock()
+	e.deadAfterClose, e.closing = c.silent, true
+	e.mu.Unlock()
 	s.GoNow("closer", func() {
 		closeErr = prov.Close()
 		closeReturned = true
